@@ -4,7 +4,6 @@ import (
 	"fmt"
 	"go/token"
 	"go/types"
-	"golang.org/x/tools/go/ssa/ssautil"
 	"sort"
 	"strings"
 
@@ -327,21 +326,8 @@ func cacheCopy(key []byte) *enc {
 
 // exampleFuncs lists every function and method of a built-in example package.
 func exampleFuncs(look func(string) *ssa.Function) []*ssa.Function {
-	any := look("acquireClean")
-	if any == nil || any.Pkg == nil {
-		return nil
-	}
-	var out []*ssa.Function
-	for fn := range ssautilAll(any.Pkg.Prog) {
-		if fn.Pkg == any.Pkg && fn.Blocks != nil && fn.Synthetic == "" {
-			out = append(out, fn)
-		}
-	}
-	sort.Slice(out, func(i, j int) bool { return out[i].Pos() < out[j].Pos() })
-	return out
+	return exampleFuncsOf(look, "acquireClean")
 }
-
-func ssautilAll(prog *ssa.Program) map[*ssa.Function]bool { return ssautil.AllFunctions(prog) }
 
 // pooledKeepsParam lists the stores of a reference-typed parameter into a field of an object taken from a pool.
 func pooledKeepsParam(fns []*ssa.Function) []*ssa.Store {
